@@ -6,6 +6,7 @@
    arbitrary function [H]; Python's tuple hash is the arbitrary function [TH]/[PH]. *)
 From FCA Require Import Base.ListSet Model.BinTable Model.FormalContext Spec.Galois Spec.Closure
   Model.C08_Concept Spec.C08_Order Spec.C08_Pattern Lemmas.C08 Lemmas.C08p.
+From FCA Require Lemmas.C08q.     (* loaded, not imported: the C13/C14 model shares short names with ours *)
 
 (* ---------------------------------------------------------------- FormalConcept: the order *)
 
@@ -217,6 +218,33 @@ Theorem C08_pattern_from_objects_by_name : forall HM K A,
 Proof. exact pc_from_objects_by_name. Qed.
 Print Assumptions C08_pattern_from_objects_by_name.
 
+(* ... and for ALL shipped structures (IntervalPS, IntervalNumpyPS, SetPS -- the empty value set is a
+   legitimate description --, AttributePS), over the many-valued model of C13/C14
+   (Model/MVContext.v): the extent from_objects returns is the product closure of
+   Spec/PatternSpec.v (most specific description per column, or the conventions for no objects,
+   then the containment filter); for a non-empty in-range argument it is extensive, monotone and
+   idempotent *)
+Theorem C08_pattern_from_objects_is_closure_all_structures : forall K A,
+  FCA.Model.MVContext.pc_int (FCA.Model.MVContext.pc_from_objects K A false)
+  = FCA.Model.MVContext.mv_intention_i K A
+  /\ FCA.Model.MVContext.pc_ext (FCA.Model.MVContext.pc_from_objects K A false)
+     = FCA.Spec.PatternSpec.mv_cl_spec (FCA.Model.MVContext.mv_cols K) (FCA.Model.MVContext.mv_n K) A
+  /\ FCA.Model.MVContext.pc_ext (FCA.Model.MVContext.pc_from_objects K A true) = A.
+Proof. exact FCA.Lemmas.C08q.pc_from_objects_closure_all. Qed.
+Print Assumptions C08_pattern_from_objects_is_closure_all_structures.
+
+Theorem C08_pattern_from_objects_closure_laws : forall K A B,
+  A <> [] -> in_range (FCA.Model.MVContext.mv_n K) A ->
+  incl A (FCA.Model.MVContext.pc_ext (FCA.Model.MVContext.pc_from_objects K A false))
+  /\ (incl A B -> incl (FCA.Model.MVContext.pc_ext (FCA.Model.MVContext.pc_from_objects K A false))
+                      (FCA.Model.MVContext.pc_ext (FCA.Model.MVContext.pc_from_objects K B false)))
+  /\ FCA.Model.MVContext.pc_ext
+       (FCA.Model.MVContext.pc_from_objects K
+          (FCA.Model.MVContext.pc_ext (FCA.Model.MVContext.pc_from_objects K A false)) false)
+     = FCA.Model.MVContext.pc_ext (FCA.Model.MVContext.pc_from_objects K A false).
+Proof. exact FCA.Lemmas.C08q.pc_from_objects_closure_laws. Qed.
+Print Assumptions C08_pattern_from_objects_closure_laws.
+
 (* ---------------------------------------------------------------- non-vacuity *)
 
 (* the 3x3 table of the README-like example: its concepts ({0,2},{0}) and ({0},{0,2}) are derived,
@@ -250,4 +278,12 @@ Example C08_pattern_nonvacuous :
   hull_desc ex_MV [0; 2] = [Some (1, 4)%Z] /\ ext_mv ex_MV (hull_desc ex_MV [0; 2]) = [0; 2] /\
   ext_mv ex_MV (hull_desc ex_MV [0; 1]) = [0; 1; 2] /\ hull_desc ex_MV [] = [None] /\
   ext_mv ex_MV [None] = [].
+Proof. repeat split; vm_compute; reflexivity. Qed.
+
+(* objects 0 and 2 have NO category: from_objects on them keeps exactly them (not the empty extent) *)
+Example C08_pattern_empty_value_set_nonvacuous :
+  let K := FCA.Model.MVContext.mkMV 3 [FCA.Model.PatternStructure.CSet [[]; [1; 2]; []]] [0; 1; 2] [0] [0] in
+  FCA.Model.MVContext.pc_ext (FCA.Model.MVContext.pc_from_objects K [0] false) = [0; 2]
+  /\ FCA.Model.MVContext.pc_ext (FCA.Model.MVContext.pc_from_objects K [] false) = [0; 2]
+  /\ FCA.Model.MVContext.pc_ext (FCA.Model.MVContext.pc_from_objects K [1] false) = [0; 1; 2].
 Proof. repeat split; vm_compute; reflexivity. Qed.
